@@ -226,6 +226,19 @@ def check_pro(acc, rec, pro, kid, kids, keys, la, ver, hv, PlayReady, BufferedRe
     if la is not None and '{' not in la:
         if not la_el or (la_el[0].text or '') != la:
             bad('la-url', f'LA_URL is {(la_el[0].text if la_el else None)!r}, requested {la!r}')
+    elif la is not None:
+        # a licence URL with format fields: {default_kid} is the key id as tenc carries it (hex), {cfgs} one
+        # "(kid:<base64 of the GUID form>,...)" group per key; nothing of the template syntax is left over
+        text = (la_el[0].text or '') if la_el else ''
+        want = la.replace('{default_kid}', kid.hex())
+        if '{cfgs}' in want:
+            head, tail = want.split('{cfgs}', 1)
+            ok = text.startswith(head) and text.endswith(tail) and '{' not in text and '}' not in text and all(
+                'kid:' + base64.b64encode(uuid.UUID(bytes=k).bytes_le).decode() in text for k in kids)
+        else:
+            ok = text == want
+        if not ok:
+            bad('la-url|format-fields', f'LA_URL is {text!r}, the template {la!r} filled in for key id {kid.hex()} gives {want!r}')
     if hv is not None and version and not version.startswith(f'{hv:.1f}'):
         bad('header-version', f'WRMHEADER version {version}, requested {hv}')
     if hv is None and ver is not None and version:
@@ -390,6 +403,12 @@ def manifest_protection(item):
 
     def bad(clause, text):
         acc.violation(sig('manifest', clause), f'{url}: {text}', rec)
+    # a DRM selection that names at least one system makes the manifest list the encrypted files of the stream (both
+    # streams used here have them): a document of clear Representations without ContentProtection ignored the request
+    if sel:
+        reps = [r_ for r_ in doc.all_reps() if r_.id in st.files and r_.content_type in ('video', 'audio')]
+        if reps and not any(st.files[r_.id]['init'].encrypted for r_ in reps):
+            bad('selection-ignored', f'drm={drm} lists only clear media: {sorted(r_.id for r_ in reps)}')
     seen = set()
     for rep in doc.all_reps():
         if id(rep.adp_el) in seen or rep.id not in st.files:
